@@ -713,6 +713,11 @@ func (c *FnCtx) applyCallee1(st *State, site ast.Node, key string, sig *types.Si
 		c.trustedUsed["contract: "+key] = true
 	}
 	for _, en := range ct.Ensures {
+		// a postcondition that speaks of the callee's own call sites ($ret / $called) is glue information about the callee's
+		// body: it is proved there and means nothing at its call sites (the names would denote the caller's call sites)
+		if strings.Contains(en.Text, "$ret(") || strings.Contains(en.Text, "$called(") {
+			continue
+		}
 		st.assume(c.specEval(st, en.Expr, env, pre))
 	}
 	return rs
